@@ -4,14 +4,17 @@ from compile_common import GEN_RULE, TRUSTED, stream
 
 CONFIG = {
     "lean_props": "J5V/Props/C13.lean",
-    "extract": [],
+    "extract": ["evolve"],
     "streams": [
         stream("evolve", {"quick": 640, "thorough": 9600, "search": 1280}, {"quick": 16, "thorough": 16, "search": 16},
                GEN_RULE + " Op `evolve`: package P plus 1-4 append edits e (appendfield at the end of an object / oneof / inline object at any "
                "depth / nested object / request / response / topic message (also entity data, events, commands, summaries), appendoption "
                "at the end of a top-level / nested / inline enum or of the entity statuses, appenddecl of a new object / oneof / enum / "
                "service / topic at the end of a file; appended options may state a number, appended fields may be primary keys of a "
-               "hand-written KEYS object, appended inline objects may take the name of the object they are appended to); the real compiler compiles P and e(P); every element of compile(P) — message, "
+               "hand-written KEYS object, appended inline objects may take the name of the object they are appended to; class alias-shadow (1/6 of the ops with "
+               "a second package): P imports the other package under a capitalised alias `ZzShared|ZzCommon|ZzTypes|ZzExt`, has an object with a field "
+               "`object:<Alias>.<T>` and the edit appends a top-level `object <Alias> { … object T { … } }` — a root declaration spelled like the alias with a "
+               "nested object spelled like the referenced type); the real compiler compiles P and e(P); every element of compile(P) — message, "
                "field (number, type, label, proto3_optional, type name, JSON name, oneof index), enum value (number), service, method "
                "(input, output, http, annotations) — is looked up in compile(e(P)); result `ok changed=<k> <skeleton of e(P)>`. "
                "Oracle: k = 0. Non-trivial = edit that changed the compiled output; distinct by skeleton of e(P)."),
